@@ -3,6 +3,7 @@ import GrmVerif.Lemmas.RecLive
 import GrmVerif.Props.C05
 import GrmVerif.Lemmas.CpctRun
 import GrmVerif.Lemmas.CpctEx
+import GrmVerif.Lemmas.NoPanic2
 /-!
 # C07 — error recovery always progresses and the error list matches the outcome
 
@@ -369,9 +370,11 @@ proved in C06) seen through the interface of the recovering driver; `Cpct.cpctRe
 restriction to the configurations at which `Parser::lr` calls `recover` (`Cpct.errCfg`; the restriction
 cannot be observed in a run: `C05.cpct_restriction_invisible`). The recoverer is a function — total —
 whatever its search budget `sfuel`: a search that runs out of budget reports nothing, like the real one
-that runs out of time. A modelled PANIC of the recoverer also counts as "reports nothing"
-(`Cpct.cpctOutcome` tells the cases apart); that the modelled recoverer never panics is not proved, it
-is what the per-error tie `Mr`/`Ir` of the check observes. -/
+that runs out of time. A modelled PANIC of the recoverer would also count as "reports nothing"
+(`Cpct.cpctOutcome` tells the cases apart) — but it does not occur: every configuration a run hands to
+the recoverer is an error configuration whose stack is a path of the automaton, and there the model of
+`recover` never panics (`C06.recover_never_panics`, `Lemmas/NoPanic1–2.lean`); the capstones below say
+so for every call of the run. -/
 
 section Capstone
 open Cpct SearchImpl RankImpl
@@ -413,18 +416,27 @@ theorem cpct_recoverer_ok (E : Env) (hc : Cert.check E.G E.A = true)
 `Term.termCheckAdj`, with `stateActionsExactB`, costs ≥ 1 and `PARSE_AT_LEAST ≥ 1`, for every input of
 real tokens, `HashSet` order, `%avoid_insert` set, window and search budget, the instrumented driver
 answers: there are a threshold `ff0` for the fuel of `feed` and a result `r` such that every `ff ≥ ff0`
-and every loop fuel `≥ 2·|w| + 2` give `some r`. Hypotheses on the table and the costs only. -/
+and every loop fuel `≥ 2·|w| + 2` give `some r`. AND NO CALL OF THE RECOVERER PANICS: for every driver
+fuel, every configuration at which the run consults the recoverer (`Cpct.recCalls`) is an error
+configuration whose stack is a path of the automaton, and the outcome of the modelled `recover` there is
+`repaired`, `noRepair` or `outOfBudget`, never `panicked` — so "the model returns" is not owed to the
+totalisation of a panic. Hypotheses on the table and the costs only. -/
 theorem cpct_recovering_parse_returns (E : Env) (hc : Cert.check E.G E.A = true) (M : Nat)
     (ht : Term.termCheckAdj E.G E.A M = true) (hsa : stateActionsExactB E.G E.A = true)
     (hcost : ∀ t, 1 ≤ E.cost t) (hN : 1 ≤ E.N)
     (hs : List Seq → List Seq) (hhs : HashSetLike hs) (avoid : Nat → Bool) (lexStart : Nat → Nat)
     (win sfuel : Nat) (hw : Cert.InputOk E.G E.w) :
-    ∃ ff0 r, ∀ ff fuel, ff0 ≤ ff → 2 * E.w.length + 2 ≤ fuel →
-      recRunO E.G E.A E.w (cpctRecover E hs avoid lexStart win sfuel) ff fuel ⟨[E.A.start], 0⟩ [] = some r := by
+    (∃ ff0 r, ∀ ff fuel, ff0 ≤ ff → 2 * E.w.length + 2 ≤ fuel →
+      recRunO E.G E.A E.w (cpctRecover E hs avoid lexStart win sfuel) ff fuel ⟨[E.A.start], 0⟩ [] = some r) ∧
+    (∀ fuel, ∀ c ∈ recCalls E.G E.A E.w (cpctRecover E hs avoid lexStart win sfuel) fuel ⟨[E.A.start], 0⟩,
+      errCfg E.G E.A E.w c = true ∧ Term.IsPath E.A c.stack ∧
+      cpctOutcome E hs avoid lexStart win sfuel c ≠ .panicked) := by
   have hT := tableOK_of_cert hc hsa hcost hN
   obtain ⟨_, h1, h2, _⟩ := cpct_recoverer_ok E hc hsa hcost hN hs hhs avoid lexStart win sfuel hw
   obtain ⟨ff0, r, h⟩ := recovering_parse_returns E.G E.A hc M ht E.w hw E.N hN _ h1 h2
-  refine ⟨ff0, r, fun ff fuel hff hfuel => ?_⟩
+  refine ⟨⟨ff0, r, fun ff fuel hff hfuel => ?_⟩, fun fuel =>
+    cpct_calls_never_panic hT (Cert.check_props E.G E.A hc) hw hhs fuel _ (Term.IsPath.start E.A)
+      (Nat.zero_le _)⟩
   rw [recRunO_cpct_guard hT hhs ff fuel _ [] (Nat.zero_le _)]
   exact h ff fuel hff hfuel
 
@@ -434,7 +446,9 @@ theorem cpct_recovering_parse_returns (E : Env) (hc : Cert.check E.G E.A = true)
 large enough fuels (`2·|w| + 2` iterations suffice) and never anything else; the errors are at least
 `PARSE_AT_LEAST` lexemes apart in strictly increasing position, all within the input, at most
 `|w|/PARSE_AT_LEAST + 1` of them; every error but possibly the last carries a repair sequence; a value
-is returned iff every error does, and without a value the last error carries none. -/
+is returned iff every error does, and without a value the last error carries none; and at no call of
+the recoverer during the run (any driver fuel) did the model of `recover` panic — an error without
+repair sequences is one where no repair exists or the budget ran out. -/
 theorem cpct_recovering_parse_result (E : Env) (hc : Cert.check E.G E.A = true) (M : Nat)
     (ht : Term.termCheckAdj E.G E.A M = true) (hsa : stateActionsExactB E.G E.A = true)
     (hcost : ∀ t, 1 ≤ E.cost t) (hN : 1 ≤ E.N)
@@ -449,10 +463,16 @@ theorem cpct_recovering_parse_result (E : Env) (hc : Cert.check E.G E.A = true) 
       Spaced E.N errs ∧ (∀ e ∈ errs, e.pos ≤ E.w.length) ∧ errs.length * E.N ≤ E.w.length + E.N ∧
       AllButLastRepaired errs ∧
       (v = true ↔ ∀ e ∈ errs, e.repairs ≠ []) ∧
-      (v = false → ∃ e, errs.getLast? = some e ∧ e.repairs = []) := by
+      (v = false → ∃ e, errs.getLast? = some e ∧ e.repairs = []) ∧
+      (∀ fuel, ∀ c ∈ recCalls E.G E.A E.w (cpctRecover E hs avoid lexStart win sfuel) fuel ⟨[E.A.start], 0⟩,
+        cpctOutcome E hs avoid lexStart win sfuel c ≠ .panicked) := by
   have hT := tableOK_of_cert hc hsa hcost hN
   obtain ⟨_, h1, h2, _⟩ := cpct_recoverer_ok E hc hsa hcost hN hs hhs avoid lexStart win sfuel hw
   obtain ⟨v, errs, ⟨ff0, ha⟩, hb, hrest⟩ := recovering_parse_result E.G E.A hc M ht E.w hw E.N hN _ h1 h2
+  have hnp := (cpct_recovering_parse_returns E hc M ht hsa hcost hN hs hhs avoid lexStart win sfuel hw).2
+  obtain ⟨r1, r2, r3, r4, r5, r6⟩ := hrest
+  have hrest := And.intro r1 (And.intro r2 (And.intro r3 (And.intro r4 (And.intro r5
+    (And.intro r6 (fun fuel c hc' => (hnp fuel c hc').2.2))))))
   have heq : ∀ ff fuel, recRunO E.G E.A E.w (cpctRecover E hs avoid lexStart win sfuel) ff fuel ⟨[E.A.start], 0⟩ [] =
       recRunO E.G E.A E.w (cpctRecoverAt E hs avoid lexStart win sfuel) ff fuel ⟨[E.A.start], 0⟩ [] :=
     fun ff fuel => recRunO_cpct_guard hT hhs ff fuel _ [] (Nat.zero_le _)
@@ -520,8 +540,16 @@ example : RecovererOK exG2 exA3 [0, 2, 4] 3 (cpctRecoverAt exE dedup (fun _ => f
 /-- the parse returns (from the theorem), within `2·|w| + 2 = 8` iterations … -/
 example : ∃ ff0 r, ∀ ff fuel, ff0 ≤ ff → 8 ≤ fuel →
     recRunO exG2 exA3 [0, 2, 4] exRec ff fuel ⟨[0], 0⟩ [] = some r :=
-  cpct_recovering_parse_returns exE (wholeRunCert_unpack ex3_cert).1 20 (by decide) ex3_sa ex3_cost (by decide) dedup
-    hashSetLike_dedup (fun _ => false) (fun i => 3 * i + 1) 250 200 ex3_inputOk
+  (cpct_recovering_parse_returns exE (wholeRunCert_unpack ex3_cert).1 20 (by decide) ex3_sa ex3_cost (by decide) dedup
+    hashSetLike_dedup (fun _ => false) (fun i => 3 * i + 1) 250 200 ex3_inputOk).1
+/-- … and the one call of the recoverer during the run did not panic (from the theorem; by evaluation its
+outcome is `repaired`) -/
+example : ∀ c ∈ recCalls exG2 exA3 [0, 2, 4] exRec 10 ⟨[0], 0⟩,
+    cpctOutcome exE dedup (fun _ => false) (fun i => 3 * i + 1) 250 200 c ≠ .panicked := fun c hc =>
+  ((cpct_recovering_parse_returns exE (wholeRunCert_unpack ex3_cert).1 20 (by decide) ex3_sa ex3_cost (by decide) dedup
+    hashSetLike_dedup (fun _ => false) (fun i => 3 * i + 1) 250 200 ex3_inputOk).2 10 c hc).2.2
+example : (recCalls exG2 exA3 [0, 2, 4] exRec 10 ⟨[0], 0⟩).map
+    (cpctOutcome exE dedup (fun _ => false) (fun i => 3 * i + 1) 250 200) = [.repaired] := by decide +kernel
 /-- … and by evaluation: one error at `d`, repaired, a value; `none` with too few iterations -/
 example : recRunO exG2 exA3 [0, 2, 4] exRec FUEL 8 ⟨[0], 0⟩ [] = some (true, [⟨2, [[.insert 3, .delete]]⟩]) := by
   decide +kernel
